@@ -114,6 +114,13 @@ fn build_store(pool: &mut Pool, want: &[Row]) -> Option<Vec<Row>> {
                 rusqlite::params![delta, ip.to_string()],
             )
             .ok()?;
+        // a store upgraded from the pre-`options` schema holds NULL there (ALTER TABLE ADD COLUMN):
+        // rows without options are stored that way half of the time
+        if w.options.is_empty() && w.ip % 2 == 0 {
+            pool.verif_conn()
+                .execute("UPDATE leases SET options=NULL WHERE address=?1", rusqlite::params![ip.to_string()])
+                .ok()?;
+        }
     }
     // read back independently of get_leases
     let conn = pool.verif_conn();
